@@ -150,8 +150,13 @@ def r173(ctx, api):
     r176(ctx)
     r177(ctx)
     r179(ctx)
+    r1712(ctx)
     from . import simple_append as _sa
     _sa.commit_after_loop_rule(ctx, 'R17.10')
+    _sa.commit_after_loop_multi_rule(ctx, 'R17.10')
+    from . import c14 as _c14, c08 as _c08
+    _c14.r147(ctx, 'R17.11')    # the row groups a list-opened handle reports belong to the files they are attributed to
+    _c08.r83(ctx, ctx.repo['writer'], ctx.repo['api'], ctx.repo['util'], ctx.repo['core'])   # reported partition columns are readable ones
     from . import c01 as _c01d
     _c01d.r125(ctx, 'R17.8')
     from . import c20 as _c20
@@ -284,3 +289,43 @@ def r179(ctx, rule='R17.9'):
     calls = [c for c in walk_no_nested(f) if isinstance(c, ast.Call) and callee(c) == 'dataframe.empty']
     ok = len(calls) == 1 and norm(kwarg(calls[0], 'timezones', 99)) == 'tz'
     ctx.ob(rule, 'api._pre_allocate:allocator-gets-the-zone-map', ok, '', api.loc(f))
+
+
+HANDLE_CACHES = {
+    '_base_dtype': 'null-aware dtypes, from the row groups\' statistics',
+    '_kvm': 'decoded key-values of the footer (the writer updates the pandas entry: number of categories)',
+    '_pdm': 'pandas metadata decoded from the key-values',
+    '_categories': 'category columns and their sizes, from the pandas metadata',
+}
+
+
+def r1712(ctx, rule='R17.12'):
+    """(a) a method that changes the row groups of a handle in place (write_row_groups, remove_row_groups) drops what the
+    handle had derived from the old row groups and key-values before it rebuilds its attributes, so the same handle
+    answers like a fresh one; (b) every value _dtypes stores for a column is a dtype, never an instance built by
+    calling a scalar type (`np.float64()` is the number 0.0)"""
+    api = ctx.repo['api']
+    for q in ('ParquetFile.write_row_groups', 'ParquetFile.remove_row_groups'):
+        f = api.func(q)
+        cfg = CFG(f)
+        sa = [st for st in walk_no_nested(f) if isinstance(st, ast.Expr) and callee(st.value) == 'self._set_attrs']
+        ctx.ob(rule, 'api.%s:handle-rebuilt-after-the-mutation' % q.split('.')[-1], len(sa) >= 1, '', api.loc(f))
+        for attr in sorted(HANDLE_CACHES):
+            resets = [st for st in walk_no_nested(f) if isinstance(st, ast.Assign) and isinstance(st.value, ast.Constant) and st.value.value is None
+                      and any(norm(t) == 'self.%s' % attr for t in st.targets)]
+            ok = bool(sa) and all(any(cfg.dominates(cfg.node_of(r), cfg.node_of(x)) for r in resets) for x in sa)
+            ctx.ob(rule, 'api.%s:%s-dropped-before-the-handle-is-rebuilt' % (q.split('.')[-1], attr), ok,
+                   'self.%s (%s) survives the mutation: the handle that wrote keeps answering for the old row groups' % (attr, HANDLE_CACHES[attr]),
+                   api.loc(sa[0]) if sa else api.loc(f))
+    d = api.func('ParquetFile._dtypes')
+    n = 0
+    for st in walk_no_nested(d):
+        if isinstance(st, ast.Assign) and isinstance(st.targets[0], ast.Subscript) and norm(st.targets[0].value) == 'dtype':
+            n += 1
+            v = st.value
+            scalar = isinstance(v, ast.Call) and not v.args and not v.keywords and norm(v.func) in (
+                'np.float64', 'np.float32', 'np.int64', 'np.int32', 'np.bool_', 'float', 'int', 'bool')
+            ctx.ob(rule, 'api._dtypes:value-stored-for-a-column-is-a-dtype:%s' % norm(v)[:30], not scalar,
+                   '`%s` stores the scalar %s, not a dtype: what the handle reports does not compare equal to the dtype of the '
+                   'frame it reads' % (norm(st), norm(v)), api.loc(st))
+    ctx.floor(rule, 'dtype stores in _dtypes', n, 4)
